@@ -1,11 +1,14 @@
-//@ variant: tcp TU=libxcm/tp/tcp/xcm_tp_tcp.c DEFS=-DXF_TCP P=tcp
-//@ variant: tls TU=libxcm/tp/tls/xcm_tp_tls.c DEFS=-DXF_TLS P=tls
+//@ variant: tcp TU=libxcm/tp/tcp/xcm_tp_tcp.c DEFS=-DXF_TCP P=tcp R=xcm_tp_socket_receive NOTE=thorough-only
+//@ variant: tls TU=libxcm/tp/tls/xcm_tp_tls.c DEFS=-DXF_TLS P=tls R=xcm_tp_socket_receive NOTE=thorough-only
+//@ variant: tcp-nr TU=libxcm/tp/tcp/xcm_tp_tcp.c DEFS=-DXF_TCP_-DXV_NR P=tcp R=buffer_msg NOTE=quick
+//@ variant: tls-nr TU=libxcm/tp/tls/xcm_tp_tls.c DEFS=-DXF_TLS_-DXV_NR P=tls R=buffer_msg NOTE=quick
 //@ tu: $TU
 //@ defs: $DEFS
 //@ loops: framing.loops
 //@ enforce: $P_receive
-//@ replace: try_finish_send xcm_tp_socket_receive
+//@ replace: try_finish_send $R
 //@ timeout: 3000
+//@ note: $NOTE
 //@ props: C01 C06 C07 C17 C02
 //@ expect: postcondition>=14 canary=6
 #include "_unit.h"
